@@ -146,6 +146,36 @@ def run(ctx):
             if not (r & normal):
                 eof_fail.add(fid)
                 changed = True
+    # ---- R11.3a lexer progress: must-advance summaries with look-ahead facts
+    import json, os
+    from analysis.advance import Advance
+    ctx.rule("R11.3a", "every cycle of every lexer loop strictly advances the position (a token handed back by lex_one has consumed at least one character; `while self.accept(..)` continues only after consuming one)")
+    aud = json.load(open(os.path.join(os.path.dirname(__file__), "audit", "advance.json")))
+    edges = {(e["caller"], e["callee"]): e["reason"] for e in aud["edges"]}
+    lex_scope = [g for g in F.fns.values() if g.id.startswith("lef21::read::") and "LefLexer" in g.short and g.kind != "Closure" and not g.derived]
+    adv = Advance(F, lex_scope, progress_field="pos", audited_edges=edges)
+    n_lex_loops = 0
+    for g in sorted(lex_scope, key=lambda x: x.id):
+        gb = Body(g)
+        for header, blocks in gb.loops():
+            n_lex_loops += 1
+        bad = adv.loop_violations(g.id)
+        from rules.C10 import loop_role
+        for header, blocks in gb.loops():
+            key = "%s/loop@%s" % (g.short, loop_role(gb, header, blocks))
+            w = [x for h, x in bad if h == header]
+            if w:
+                ctx.violation("R11.3a", key, "%s: a cycle of this loop can return to its head without the lexer position having advanced (a token or an accepted character that consumed nothing): the reader spins forever on such input" % g.short, gb.site(header), key)
+            else:
+                ctx.ok("R11.3a", key, "every cycle advances `pos`")
+    for e, why in edges.items():
+        if e in adv.used_audits:
+            ctx.assume("advance audit %s -> %s: %s" % (e[0], e[1], why))
+        else:
+            ctx.note("R11.3a", "audited edge %s -> %s no longer occurs" % e)
+    ctx.floor("R11.3a", "lexer_loops", n_lex_loops, 6)
+    ctx.count("lexer_summaries", {g.short.split("::")[-1]: {k: v for k, v in adv.summary(g.id).items()} for g in lex_scope if "lex_" in g.short or "accept" in g.short or "next" in g.short})
+
     n_loops = 0
     for fid in sorted(reach):
         if not fid.startswith("lef21::"):
@@ -166,8 +196,7 @@ def run(ctx):
                 ctx.violation("R11.3", key, "%s: a cycle of this loop neither iterates a finite collection nor consumes input (can spin forever)" % f.short, b.site(header))
                 continue
             if fid.startswith("lef21::read::") and "LefLexer" in f.name:
-                # lexer loops: `while self.accept(pred)` — the loop continues only if a character was consumed
-                ctx.ok("R11.3", key, "consumes a character per iteration")
+                # lexer loops: decided by the must-advance analysis (R11.3a below)
                 continue
             # parser loops: a consuming call on every cycle is not enough (next_token is a no-op at end of input):
             # every cycle must also pass an end-of-input-failing step, or the loop exit must be forced at end of input
